@@ -88,4 +88,14 @@ func init() {
 		{Name: "pipe-no-close", File: "util/channels/pipe.go", Old: "\t\tdefer close(readerC)\n\n", New: "", Expect: "C17-R3-pipe|BufferedPipe:close-reader"},
 		{Name: "pipe-sends-when-empty", File: "util/channels/pipe.go", Old: "\t\t\tif buffer.Len() > 0 {\n\t\t\t\treturn readerC\n\t\t\t}\n\n\t\t\treturn nil", New: "\t\t\treturn readerC", Expect: "C17-R3-pipe|BufferedPipe:nil-channel"},
 	}
+	mutations["C19"] = []Mutation{
+		{Name: "manifest-written-in-place", File: "retriever/manifest.go", Old: "\tif err := os.WriteFile(tempPath, payload, 0o600); err != nil {", New: "\tif err := os.WriteFile(finalPath, payload, 0o600); err != nil {", Expect: "C19-R1-publish-by-rename|writeManifest:WriteFile"},
+		{Name: "file-close-error-ignored", File: "retriever/compression.go", Old: "\tif err := s.file.Close(); err != nil {\n\t\t_ = os.Remove(s.tempPath)\n\n\t\treturn FileManifest{}, fmt.Errorf(\"close fragment file: %w\", err)\n\t}\n", New: "\t_ = s.file.Close()\n", Expect: "C19-R2-close-before-rename|compressedJSONLinesWriter.Close:rename:closes"},
+		{Name: "commit-before-publish", File: "retriever/dump.go", Old: "\t\tfileEntry, err := closeFragmentWriter(fragmentWriter, fragmentRelativePath, PhaseNodes, shardActionCounts.mapValue())\n\t\tfragmentWriter = nil\n\t\tif err != nil {\n\t\t\treturn err\n\t\t}\n", New: "\t\tif onCommit != nil {\n\t\t\tif err := onCommit(FileManifest{Path: fragmentRelativePath, Phase: PhaseNodes}, lastWrittenID); err != nil {\n\t\t\t\treturn err\n\t\t\t}\n\t\t}\n\t\tfileEntry, err := closeFragmentWriter(fragmentWriter, fragmentRelativePath, PhaseNodes, shardActionCounts.mapValue())\n\t\tfragmentWriter = nil\n\t\tif err != nil {\n\t\t\treturn err\n\t\t}\n", Expect: "C19-R3-record-after-publish|dumpNodePhase:order"},
+		{Name: "no-final-flush", File: "retriever/dump.go", Old: "\t\treturn nil, err\n\t}\n\n\tif err := flush(); err != nil {\n\t\treturn nil, err\n\t}\n\n\treturn files, nil\n}\n\nfunc dumpEdgePhase", New: "\t\treturn nil, err\n\t}\n\n\treturn files, nil\n}\n\nfunc dumpEdgePhase", Expect: "C19-R3-record-after-publish|dumpNodePhase:final-flush"},
+		{Name: "resume-skips-file-validation", File: "retriever/dump_checkpoint.go", Old: "\tif err := validateDumpCheckpointFiles(outputDir, value); err != nil {\n\t\treturn dumpCheckpoint{}, err\n\t}\n\n\treturn value, nil", New: "\treturn value, nil", Expect: "C19-R5-resume-gate|loadCompatibleDumpCheckpoint:validateDumpCheckpointFiles"},
+		{Name: "identity-drops-shard-size", File: "retriever/dump_checkpoint.go", Old: "\t\tShardSize:        options.ShardSize,\n", New: "", Expect: "C19-R6-identity|DumpOptions.ShardSize"},
+		{Name: "rollback-keeps-fragment", File: "retriever/dump.go", Old: "\t\t\tif err := onCommit(fileEntry, lastWrittenID); err != nil {\n\t\t\t\t_ = os.Remove(filepath.Join(options.OutputDir, filepath.FromSlash(fileEntry.Path)))\n\t\t\t\tfiles = files[:len(files)-1]\n\t\t\t\treturn err\n\t\t\t}\n\t\t}\n\t\tshardActionCounts = scrubActionCounts{}\n\t\tshardNumber++\n\n\t\treturn nil\n\t}\n\n\tif _, err := scanDatabaseNodesFrom", New: "\t\t\tif err := onCommit(fileEntry, lastWrittenID); err != nil {\n\t\t\t\tfiles = files[:len(files)-1]\n\t\t\t\treturn err\n\t\t\t}\n\t\t}\n\t\tshardActionCounts = scrubActionCounts{}\n\t\tshardNumber++\n\n\t\treturn nil\n\t}\n\n\tif _, err := scanDatabaseNodesFrom", Expect: "C19-R3-record-after-publish|dumpNodePhase:rollback"},
+		{Name: "manifest-per-graph", File: "retriever/dump.go", Old: "\t\tcheckpoint.Current = nil\n\t\tif err := writeDumpCheckpoint(options.OutputDir, checkpoint); err != nil {", New: "\t\tcheckpoint.Current = nil\n\t\t_ = writeManifest(options.OutputDir, checkpoint.Manifest)\n\t\tif err := writeDumpCheckpoint(options.OutputDir, checkpoint); err != nil {", Expect: "C19-R4-manifest-last"},
+	}
 }
